@@ -14,10 +14,10 @@ import (
 type knownClass struct {
 	ID       string `json:"id"`
 	What     string `json:"what"`
-	How      string `json:"how"`       // crash `how`
-	DetailRe string `json:"detail_re"` // must match the crash detail
-	Input    string `json:"input"`     // description of the input predicate
-	detail   *regexp.Regexp
+	How      []string `json:"how"`       // crash `how` (any of)
+	DetailRe []string `json:"detail_re"` // ALL must match the crash detail
+	Input    string   `json:"input"`     // description of the input predicate
+	detail   []*regexp.Regexp
 	input    func(src []byte) bool
 }
 
@@ -26,8 +26,8 @@ var knownClasses = []*knownClass{
 		ID: "F-C02-1",
 		What: "internal/core/compile popScope ranges over the alias map: the order of 'unreferenced alias or let clause' errors " +
 			"(err.Error(), errors.Errors(err), the error quoted by exporters) differs between runs of the same input",
-		How:      "nondet",
-		DetailRe: `^transcripts differ only in the order of 'unreferenced alias or let clause' errors`,
+		How:      []string{"nondet"},
+		DetailRe: []string{`^transcripts differ only in the order of 'unreferenced alias or let clause' errors`},
 		Input:    "any (recognised on the transcripts: equal after worker.go normalize())",
 	},
 	{
@@ -35,16 +35,49 @@ var knownClasses = []*knownClass{
 		What: "nesting that does not pass parser.parseUnaryExpr (field chains `a: a: a: ... 1`, comprehension bodies `if c {if c {...`) " +
 			"is not bounded by maxNestLevel; astutil.Resolve, called from parser.ParseFile, recurses once per level: " +
 			"about 300000 levels (a 0.9 MB file) end in `fatal error: stack overflow` (goroutine stack exceeds the 1 GB limit)",
-		How:      "fatal",
-		DetailRe: `(?s)goroutine stack exceeds 1000000000-byte limit.*fatal error: stack overflow.*cue/ast/astutil\.\(\*scope\)\.Before`,
+		How:      []string{"fatal"},
+		DetailRe: []string{`goroutine stack exceeds 1000000000-byte limit`, `fatal error: stack overflow`, `(?m)^  cue/ast/astutil\.\(\*scope\)\.Before@astutil/resolve\.go`},
 		Input:    ">= 100000 directly nested field labels (`l: l: l: ...`) or >= 100000 occurrences of `if true {`",
 		input:    func(src []byte) bool { return labelChain(src) >= 100000 || bytes.Count(src, []byte("if true {")) >= 100000 },
+	},
+	{
+		ID: "F-C02-3",
+		What: "a bound (<=3, >0, ...) unified with a struct whose only content is a comprehension that yields nothing " +
+			"(`b: <=3, b: {if false {x: 1}}`): nodeContext.validateValue checks the bound against the vertex itself, BinOp -> " +
+			"validateValue -> Vertex.Finalize re-enters unify of the vertex under evaluation -> unbounded recursion, fatal stack overflow",
+		How: []string{"fatal", "timeout"},
+		DetailRe: []string{`(?m)^  internal/core/adt\.\(\*BoundValue\)\.validate@adt/expr\.go`, `(?m)^  internal/core/adt\.BinOp@adt/binop\.go`,
+			`(?m)^  internal/core/adt\.validateValue@adt/validate\.go`, `(?m)^  internal/core/adt\.\(\*Vertex\)\.Finalize@adt/composite\.go`,
+			`(?m)^  internal/core/adt\.\(\*nodeContext\)\.validateValue@adt/eval\.go`, `stack overflow|SIGQUIT`},
+		Input: "any (recognised by the recursion cycle on the stack)",
+	},
+	{
+		ID: "F-C02-4",
+		What: "cue.Context.BuildFile on the partial AST that parser.ParseFile returns together with an error: an import whose path " +
+			"literal is malformed (e.g. invalid UTF-8) and whose name is referenced makes compile.resolve call " +
+			"Feature.StringValue on an invalid label -> panic \"not a string label\" escapes BuildFile (cmd/cue never compiles after a parse error)",
+		How: []string{"panic"},
+		DetailRe: []string{`^PANIC build \[after parse-error: partial AST\] not a string label \|\| cuelang\.org/go/internal/core/adt\.Feature\.StringValue@adt/feature\.go:\d+ < cuelang\.org/go/internal/core/compile\.\(\*compiler\)\.resolve@compile/compile\.go:\d+`},
+		Input: "any (the panic line itself says that the parse had failed)",
+	},
+	{
+		ID: "F-C02-5",
+		What: "a self reference inside list.Sort/SortStable nested in another builtin call " +
+			"(`h: list.FlattenN([list.Sort(h, list.Ascending), 1], 0)`): the builtin evaluates its argument eagerly, the " +
+			"comparator unification finalizes it, which evaluates the call again -> unbounded recursion, fatal stack overflow",
+		How: []string{"fatal", "timeout"},
+		DetailRe: []string{`(?m)^  pkg/list\.\(\*valueSorter\)\.lessNew@list/sort\.go`, `(?m)^  internal/core/adt\.\(\*CallExpr\)\.evaluate@adt/expr\.go`,
+			`(?m)^  internal/core/adt\.\(\*Builtin\)\.call@adt/expr\.go`, `stack overflow|SIGQUIT`},
+		Input: "mentions list.Sort, list.SortStable or list.SortStrings",
+		input: func(src []byte) bool { return bytes.Contains(src, []byte("list.Sort")) },
 	},
 }
 
 func init() {
 	for _, k := range knownClasses {
-		k.detail = regexp.MustCompile(k.DetailRe)
+		for _, re := range k.DetailRe {
+			k.detail = append(k.detail, regexp.MustCompile(re))
+		}
 	}
 }
 
@@ -83,10 +116,14 @@ func labelChain(src []byte) int {
 
 func matchKnown(how, detail string, src []byte) string {
 	for _, k := range knownClasses {
-		if k.How != how {
-			continue
+		ok := false
+		for _, h := range k.How {
+			ok = ok || h == how
 		}
-		if !k.detail.MatchString(detail) {
+		for _, re := range k.detail {
+			ok = ok && re.MatchString(detail)
+		}
+		if !ok {
 			continue
 		}
 		if k.input != nil && !k.input(src) {
